@@ -76,3 +76,21 @@ package services
 //@ func (*httpsService).Handle$1
 //@   ensures [captured] ja3Digest == hexenc(md5sum(old(tls.ja3str(hello)))) && serverName == hello.ServerName
 //@   modifies *
+//
+// Connection isolation of the tftp transfers (property C03): the map of transfers is shared by the
+// handlers of all clients; its two accessors touch the entry of the client's own address only.
+//@ func (*tftpService).putFile
+//@   check safety,frame
+//@   requires s.buffers != nil
+//@   ensures [own-entry] haskey(s.buffers, addr) && s.buffers[addr] == f
+//@   ensures [others-untouched] forall k string :: k != addr ==> haskey(s.buffers, k) == old(haskey(s.buffers, k)) && s.buffers[k] == old(s.buffers[k])
+//@   modifies entries(s.buffers)
+//
+//@ func (*tftpService).appendData
+//@   check safety,frame
+//@   requires s.buffers != nil
+//@   physical forall k string :: haskey(s.buffers, k) ==> s.buffers[k] != nil
+//@   ensures [own-transfer] result1 == old(haskey(s.buffers, addr)) && (result1 ==> result0 == old(s.buffers[addr]))
+//@   ensures [ends] last ==> !haskey(s.buffers, addr)
+//@   ensures [others-untouched] forall k string :: k != addr ==> haskey(s.buffers, k) == old(haskey(s.buffers, k)) && s.buffers[k] == old(s.buffers[k])
+//@   modifies entries(s.buffers), s.buffers[addr].content, s.buffers[addr].content[:]
